@@ -10,6 +10,25 @@ fn arg(args: &[String], name: &str) -> Option<String> {
 }
 fn flag(args: &[String], name: &str) -> bool { args.iter().any(|a| a == name) }
 
+/// runs one in-process case under a watchdog: the implementation is called on a worker thread; if it does not come
+/// back within the limit (an endless loop, a dead lock), a line saying so is written and the process gives up - the
+/// cases after it in this shard are not run, the line is the finding
+fn watched<F: FnOnce() -> serde_json::Value + Send + 'static>(limit_s: u64, mode: &str, seed: u64, case: u64, thorough: bool, f: F) -> serde_json::Value {
+    let (tx, rx) = std::sync::mpsc::channel();
+    std::thread::Builder::new().stack_size(64 << 20).spawn(move || { let _ = tx.send(f()); }).unwrap();
+    match rx.recv_timeout(Duration::from_secs(limit_s)) {
+        Ok(v) => v,
+        Err(_) => {
+            let line = json!({"mode": mode, "case": case, "hang": true, "limitSeconds": limit_s, "gen": {"seed": seed, "case": case, "thorough": thorough}});
+            // the trace may have been redirected (K-run): fd 1 is the capture there, so write to the saved descriptor if any
+            let text = format!("{}\n", line);
+            let fd: i32 = std::env::var("CVH_TRACE_FD").ok().and_then(|s| s.parse().ok()).unwrap_or(1);
+            let _ = nix::unistd::write(fd, text.as_bytes());
+            std::process::exit(3);
+        }
+    }
+}
+
 fn main() {
     let args: Vec<String> = std::env::args().collect();
     let cmd = args.get(1).map(String::as_str).unwrap_or("");
@@ -73,16 +92,14 @@ fn main() {
                     let j: serde_json::Value = serde_json::from_str(l).unwrap();
                     let (s, c) = (j["gen"]["seed"].as_u64().unwrap_or(seed), j["gen"]["case"].as_u64().unwrap_or(0));
                     let th = j["gen"]["thorough"].as_bool().unwrap_or(false);
-                    let mut rng = Rng::new(s.wrapping_mul(1_000_003).wrapping_add(c) ^ salt);
-                    let mut line = genf(&mut rng, th);
+                    let mut line = watched(if th { 1800 } else { 300 }, cmd, s, c, th, move || { let mut rng = Rng::new(s.wrapping_mul(1_000_003).wrapping_add(c) ^ salt); cvh::ops::install_panic_hook(); genf(&mut rng, th) });
                     line["case"] = json!(c); line["gen"] = json!({"seed": s, "case": c, "thorough": th});
                     let mut o = out.lock(); writeln!(o, "{}", line).unwrap();
                 }
                 return;
             }
             for case in start..cases {
-                let mut rng = Rng::new(seed.wrapping_mul(1_000_003).wrapping_add(case) ^ salt);
-                let mut line = genf(&mut rng, thorough);
+                let mut line = watched(if thorough { 1800 } else { 300 }, cmd, seed, case, thorough, move || { let mut rng = Rng::new(seed.wrapping_mul(1_000_003).wrapping_add(case) ^ salt); genf(&mut rng, thorough) });
                 line["case"] = json!(case); line["gen"] = json!({"seed": seed, "case": case, "thorough": thorough});
                 let mut o = out.lock(); writeln!(o, "{}", line).unwrap();
             }
@@ -96,10 +113,13 @@ fn main() {
             }).collect());
             let list: Vec<(u64, u64, bool)> = replay.unwrap_or_else(|| (start..cases).map(|c| (seed, c, thorough)).collect());
             for (s, case, th) in list {
-                let mut rng = Rng::new(s.wrapping_mul(1_000_003).wrapping_add(case) ^ 0xD17);
-                let mut line = if cmd == "twin" { cvh::dir::gen_twin(&mut rng, th, &exe) } else {
-                    match case % 8 { 0 | 1 => cvh::dir::gen_sel(&mut rng, th), 2 | 3 | 4 => cvh::dir::gen_live(&mut rng, th), 5 => cvh::dir::gen_mix(&mut rng, th), _ => cvh::dir::gen_bench(case / 8 * 2 + (case % 8 - 6)) }
-                };
+                let (is_twin, exe2) = (cmd == "twin", exe.clone());
+                let mut line = watched(if th { 3600 } else { 900 }, cmd, s, case, th, move || {
+                    let mut rng = Rng::new(s.wrapping_mul(1_000_003).wrapping_add(case) ^ 0xD17);
+                    if is_twin { cvh::dir::gen_twin(&mut rng, th, &exe2) } else {
+                        match case % 8 { 0 | 1 => cvh::dir::gen_sel(&mut rng, th), 2 | 3 | 4 => cvh::dir::gen_live(&mut rng, th), 5 => cvh::dir::gen_mix(&mut rng, th), _ => cvh::dir::gen_bench(case / 8 * 2 + (case % 8 - 6)) }
+                    }
+                });
                 line["case"] = json!(case); line["gen"] = json!({"seed": s, "case": case, "thorough": th});
                 let mut o = out.lock(); writeln!(o, "{}", line).unwrap();
             }
@@ -138,12 +158,12 @@ fn main() {
                 let cap = nix::fcntl::open(&cap_path, nix::fcntl::OFlag::O_RDWR | nix::fcntl::OFlag::O_CREAT | nix::fcntl::OFlag::O_TRUNC | nix::fcntl::OFlag::O_APPEND, nix::sys::stat::Mode::from_bits_truncate(0o600)).unwrap();
                 nix::unistd::dup2(cap, 1).unwrap();
                 std::env::set_var("CVH_STDOUT_CAP", &cap_path);
+                std::env::set_var("CVH_TRACE_FD", real.to_string());
                 trace_out = Some(unsafe { std::fs::File::from_raw_fd(real) });
             }
             for (s, case, th) in list {
                 let mut line = if cmd == "run" {
-                    let mut rng = Rng::new(s.wrapping_mul(1_000_003).wrapping_add(case) ^ 0x4E17);
-                    cvh::run::gen_case(&mut rng, th, case)
+                    watched(if th { 1800 } else { 600 }, cmd, s, case, th, move || { let mut rng = Rng::new(s.wrapping_mul(1_000_003).wrapping_add(case) ^ 0x4E17); cvh::run::gen_case(&mut rng, th, case) })
                 } else {
                     let mut rng = Rng::new(s.wrapping_mul(1_000_003).wrapping_add(case) ^ 0x9A0C);
                     cvh::proc::gen_case(&mut rng, th, case)
